@@ -167,3 +167,92 @@ def run(pid, res, jobs=8):
     res.extra["selftest"] = summary
     if bad:
         raise AnalysisError("checker self-test failed: " + "; ".join(f"{m}: {s} [{d[:200]}]" for m, s, d in bad))
+
+
+# ---------------------------------------------------------------------------------------------------------------------
+# stored artefacts as self-test: behaviour-preserving refactors (negative controls) and seeded defects (positive controls)
+
+def _touched(patch):
+    out = set()
+    try:
+        for line in open(patch, errors="replace"):
+            if line.startswith("+++ b/"):
+                out.add(line[6:].strip())
+    except OSError:
+        pass
+    return out
+
+
+def run_stored(pid, res):
+    """Thorough tier: on one scratch copy, (a) every stored refactor under /verif/refactors that touches a file the property is
+    anchored in (or that its checker is known to read) must leave the check silent, (b) every stored seeded change of this
+    property recorded as detected must be reported.  Failures make the run an ANALYSIS-ERROR (the checker is wrong, not /repo)."""
+    import json
+    import subprocess
+    from .cfront import VERIF
+    base = VERIF
+    anchors = set()
+    try:
+        for line in open(os.path.join(base, "properties.jsonl")):
+            p = json.loads(line)
+            if p["id"] == pid:
+                anchors = set(p["anchors"]["files"])
+    except OSError:
+        return
+    rdir = os.path.join(base, "refactors")
+    sdir = os.path.join(base, "seeded")
+    controls = []
+    if os.path.isdir(rdir):
+        for n in sorted(os.listdir(rdir)):
+            pf = os.path.join(rdir, n, "patch.diff")
+            if os.path.isfile(pf) and (_touched(pf) & anchors):
+                controls.append((n, pf))
+    seeds = []
+    if os.path.isdir(sdir):
+        for n in sorted(os.listdir(sdir)):
+            mf = os.path.join(sdir, n, "meta.json")
+            pf = os.path.join(sdir, n, "patch.diff")
+            if n.startswith(pid + "-") and os.path.isfile(mf) and os.path.isfile(pf):
+                try:
+                    det = json.load(open(mf))["check_result"]["detected"]
+                except Exception:
+                    continue
+                if det == "yes":
+                    seeds.append((n, pf))
+    if not controls and not seeds:
+        return
+    res.rule("STORED", "stored behaviour-preserving refactors leave the check silent; stored seeded defects recorded as detected "
+             "are reported", floor=0)
+    bad = []
+    with scratch.scratch() as root:
+        rc0, out0 = scratch.run_check(pid, root)
+        if rc0 == 2:
+            raise AnalysisError(f"stored-artefact self-test: baseline is an analysis error: {out0[-300:]}")
+        for kind, items in (("refactor", controls), ("seed", seeds)):
+            for n, pf in items:
+                a = subprocess.run(["git", "apply", "--unsafe-paths", "--directory", root, pf], cwd="/", capture_output=True, text=True)
+                if a.returncode != 0:
+                    a = subprocess.run(["patch", "-p1", "-s", "-d", root, "-i", pf], capture_output=True, text=True)
+                if a.returncode != 0:
+                    res.count("stored_patches_not_applicable")
+                    subprocess.run(["patch", "-p1", "-s", "-R", "-f", "-d", root, "-i", pf], capture_output=True, text=True)
+                    continue
+                try:
+                    rc, out = scratch.run_check(pid, root)
+                finally:
+                    r = subprocess.run(["patch", "-p1", "-s", "-R", "-d", root, "-i", pf], capture_output=True, text=True)
+                    if r.returncode != 0:
+                        raise AnalysisError(f"stored-artefact self-test: cannot undo {n}")
+                if kind == "refactor":
+                    if rc == rc0:
+                        res.ok("STORED", f"refactor:{n}", {"status": "silent"})
+                    else:
+                        bad.append((n, f"behaviour-preserving refactor changes the result (exit {rc0} -> {rc}): " +
+                                    "; ".join(l[:160] for l in out.splitlines() if "rule=" in l and not l.startswith("KNOWN"))[:400]))
+                else:
+                    if rc == 1:
+                        res.ok("STORED", f"seed:{n}", {"status": "reported"})
+                    else:
+                        bad.append((n, f"seeded defect recorded as detected is not reported (exit {rc})"))
+    if bad:
+        raise AnalysisError("stored-artefact self-test failed: " + "; ".join(f"{a}: {b}" for a, b in bad)[:1500])
